@@ -270,6 +270,10 @@ V_ENSURES_WF(__CPROVER_return_value < 1 || g_hu_hash != &zck->check_chunk_hash |
 V_ENSURES(__CPROVER_return_value >= 1 || zck->error_state == 2 || ((V_OLD(zck->error_state) > 0 || zck->mode != ZCK_MODE_READ) && zck->error_state > 0)) /*@C15,C02.comp_end_dchunk.rejected_chunk_leaves_sticky_error*/
 V_ENSURES_WF(__CPROVER_return_value < 1 || (zck->comp.data_idx == RD_NEXT_OF(V_OLD(zck->comp.data_idx)) && zck->comp.data_loc == 0 && zck->check_chunk_hash.ctx != NULL && zck->check_chunk_hash.type == &zck->chunk_hash_type)) /*@C02,C14.comp_end_dchunk.advances_to_next_chunk_with_fresh_hash*/
 V_ENSURES(__CPROVER_return_value < 1 || (zck->comp.data_loc == 0 && zck->check_chunk_hash.ctx != NULL && zck->check_chunk_hash.type == &zck->chunk_hash_type)) /*@C02.comp_end_dchunk.next_chunk_starts_at_zero_with_fresh_hash*/
+/* control-only units (no named list): the cursor moves to NULL or to SOME chunk record that is a valid object distinct from
+ * everything else in sight -- the one-step unfolding of 'the index is a list of distinct allocated records' (assumed there;
+ * the enforcing unit proves the exact successor, clause advances_to_next_chunk_with_fresh_hash) */
+V_ENSURES_CTL(__CPROVER_return_value < 1 || zck->comp.data_idx == NULL || __CPROVER_is_fresh(zck->comp.data_idx, sizeof(zckChunk)))
 V_ENSURES(__CPROVER_return_value < 1 || (V_OLD(zck->error_state) == 0 && zck->error_state == 0)) /*@C12.comp_end_dchunk.never_succeeds_on_a_context_in_error*/
 V_ENSURES(g_hu_hash == &zck->check_chunk_hash || (g_hu_total == V_OLD(g_hu_total) && g_hu_seen == V_OLD(g_hu_seen) && g_hu_ptr == V_OLD(g_hu_ptr) && g_hu_final == V_OLD(g_hu_final) && g_hu_inits == V_OLD(g_hu_inits))) /*@C02.comp_end_dchunk.other_hash_untouched*/
 V_ENSURES(zck->comp.dc_data_loc <= zck->comp.dc_data_size) /*@C03.comp_end_dchunk.dc_buffer_cursor_inside*/
